@@ -401,7 +401,7 @@ func propC07(r *kernel.Run) {
 		victimW := NewWorld(r, "othernode", "inmem", false, false)
 		ocreds, oid := enrollStored(r, srv, victimW, nil, "")
 		rl := w.Net.Listen("rogue:9202")
-		kind := Pick2(tp, "foreign-roots", "stale-nonce", "nonce-omitted", "client-auth-leaf", "preference-ignored", "legit-relay", "selects-fetch-like-extra")
+		kind := Pick2(tp, "foreign-roots", "stale-nonce", "nonce-omitted", "client-auth-leaf", "preference-ignored", "legit-relay", "selects-fetch-like-extra", "genuine-chain-behind-own-leaf")
 		r.Count("fault.rogue_server."+kind, 1)
 		noClientCert := tp.Draw(3) == 0
 		// the rogue answers every connection it gets
@@ -452,6 +452,15 @@ func propC07(r *kernel.Run) {
 							mint(nonce)
 						case "legit-relay":
 							mint(nonce) // an intermediate hop that asks the real server for a certificate with this nonce
+						case "genuine-chain-behind-own-leaf":
+							// the rogue has SEEN a genuine certificate for this nonce (it relayed the node's ClientHello to the real
+							// server and hung up) but holds no key for it: it proves possession of its own self-signed leaf and
+							// appends the observed genuine leaf and CA to the chain it sends
+							mint(nonce)
+							observed := cert.Certificate
+							_, ownKey, _ := ed25519.GenerateKey(rand.Reader)
+							own := mintLeaf(nil, ownKey, ownKey.Public().(ed25519.PublicKey), []byte("own"), "rogue", x509.ExtKeyUsageServerAuth, time.Now().Add(-time.Hour), time.Now().Add(time.Hour))
+							cert = tls.Certificate{Certificate: append([][]byte{own}, observed...), PrivateKey: ownKey}
 						}
 						// the acceptable-CA list a server advertises is public information (the real roots' names)
 						pool := x509.NewCertPool()
